@@ -30,6 +30,9 @@ type c08Helper struct {
 // c08Inside, when set, runs inside the callback of the On* helpers with the view; what it returns is what the callback returns.
 var c08Inside func(view interface{}) error
 
+// c08LastErr is what the helper of the last c08Capture call returned.
+var c08LastErr error
+
 func c08Capture[T any](on func(ap.Item, func(*T) error) error) func(ap.Item) (interface{}, error) {
 	return func(it ap.Item) (interface{}, error) {
 		var got *T
@@ -41,6 +44,7 @@ func c08Capture[T any](on func(ap.Item, func(*T) error) error) func(ap.Item) (in
 			}
 			return nil
 		})
+		c08LastErr = err
 		if c08Inside != nil && called {
 			return got, nil // the callback's own error is not a refusal
 		}
@@ -701,6 +705,97 @@ func TestC08(t *testing.T) {
 								r.Report("lists", cell, key+"write", fmt.Sprintf("what call #%d wrote is not on member #%d (its mediaType is %q)", k, k, f.String()), cell)
 								break
 							}
+						}
+					}
+				}
+			}
+		}
+		// errors are not lost along a list: when the callback fails for one member (whichever), or one member cannot be viewed at all,
+		// the helper that walks the list returns an error - a nil says every member was presented and accepted
+		for _, h := range c08Helpers {
+			if !strings.HasPrefix(h.name, "On") {
+				continue
+			}
+			st := vocab.StructType(h.target)
+			mk := func(size int) ap.ItemCollection {
+				l := ap.ItemCollection{}
+				for k := 0; k < size; k++ {
+					l = append(l, c08Populate(st, k).Interface().(ap.Item))
+				}
+				return l
+			}
+			// does this helper walk lists at all?
+			calls := 0
+			c08Inside = func(interface{}) error { calls++; return nil }
+			_ = evSafe(func() { _, _ = h.call(mk(3)) })
+			c08Inside = nil
+			if calls != 3 {
+				continue
+			}
+			for _, holder := range []string{"ItemCollection", "*ItemCollection"} {
+				for failAt := 0; failAt < 3; failAt++ {
+					cell := fmt.Sprintf("%s(%s of 3 %s) callback fails for #%d", h.name, holder, h.target, failAt)
+					if !r.WantCell(cell) {
+						continue
+					}
+					n++
+					r.Case(cell, true, "lists errors")
+					l := mk(3)
+					var arg ap.Item = l
+					if holder == "*ItemCollection" {
+						arg = &l
+					}
+					k := 0
+					c08Inside = func(interface{}) error {
+						k++
+						if k-1 == failAt {
+							return fmt.Errorf("the callback's own error for member #%d", failAt)
+						}
+						return nil
+					}
+					c08LastErr = nil
+					pi := evSafe(func() { _, _ = h.call(arg) })
+					c08Inside = nil
+					if pi != nil {
+						r.Report("lists", cell, "view "+h.name+" list-error panic@"+pi.Frame, pi.Value, cell)
+					} else if c08LastErr == nil {
+						r.Report("lists", cell, "view "+h.name+" list-error callback-error-lost", fmt.Sprintf("the callback failed for member #%d of 3, the helper returned nil", failAt), cell)
+					}
+				}
+				// a member that this helper refuses when it is handed alone, at every place among members it accepts
+				for _, other := range vocab.StructTypes {
+					if other.Name() == "Link" {
+						continue // links among the members are passed over by several helpers (see the mixed lists above): their affair
+					}
+					bad := c08Populate(other, 7).Interface().(ap.Item)
+					c08Inside = func(interface{}) error { return nil }
+					c08LastErr = nil
+					_ = evSafe(func() { _, _ = h.call(bad) })
+					c08Inside = nil
+					if c08LastErr == nil {
+						continue
+					}
+					for at := 0; at < 3; at++ {
+						cell := fmt.Sprintf("%s(%s of 3 %s) with a %s at #%d", h.name, holder, h.target, other.Name(), at)
+						if !r.WantCell(cell) {
+							continue
+						}
+						n++
+						r.Case(cell, true, "lists errors")
+						l := mk(3)
+						l[at] = bad
+						var arg ap.Item = l
+						if holder == "*ItemCollection" {
+							arg = &l
+						}
+						c08Inside = func(interface{}) error { return nil }
+						c08LastErr = nil
+						pi := evSafe(func() { _, _ = h.call(arg) })
+						c08Inside = nil
+						if pi != nil {
+							r.Report("lists", cell, "view "+h.name+" list-error panic@"+pi.Frame, pi.Value, cell)
+						} else if c08LastErr == nil {
+							r.Report("lists", cell, "view "+h.name+" list-error refusal-lost", fmt.Sprintf("a *%s alone is refused; as member #%d of 3 the helper returned nil", other.Name(), at), cell)
 						}
 					}
 				}
